@@ -411,19 +411,20 @@ public:
 
       ++m;
 
-      int cpy = m - n;
-      cpy = (size() - m >= cpy) ? cpy : size() - m;
+      // m - n nonzeros are removed; the gap is filled with as many nonzeros from the end as there are behind it
+      int removed = m - n;
+      int cpy = (size() - m >= removed) ? removed : size() - m;
 
       Nonzero<R>* e = &m_elem[size() - 1];
       Nonzero<R>* r = &m_elem[n];
 
-      set_size(size() - cpy);
+      set_size(size() - removed);
 
-      do
+      while(cpy > 0)
       {
          *r++ = *e--;
+         --cpy;
       }
-      while(--cpy);
    }
 
    /// Remove \p n 'th nonzero.
